@@ -17,15 +17,15 @@ import (
 // value-stack reallocation at PRNG-chosen calls.
 
 type knobParams struct {
-	Src        string `json:"src"`
-	InitStack  int    `json:"init_stack"` // slots
-	MaxStack   int    `json:"max_stack"`  // slots
-	CallStack  int    `json:"call_stack"` // frames
-	Pool       int    `json:"pool"`
-	Queue      int    `json:"queue"`
-	Presize    int    `json:"presize"`
-	ForceGrow  []int  `json:"force_grow"` // indices of callBytecodeFunction calls at which a reallocation is forced
-	Fragments  []string `json:"fragments"`
+	Src       string   `json:"src"`
+	InitStack int      `json:"init_stack"` // slots
+	MaxStack  int      `json:"max_stack"`  // slots
+	CallStack int      `json:"call_stack"` // frames
+	Pool      int      `json:"pool"`
+	Queue     int      `json:"queue"`
+	Presize   int      `json:"presize"`
+	ForceGrow []int    `json:"force_grow"` // indices of callBytecodeFunction calls at which a reallocation is forced
+	Fragments []string `json:"fragments"`
 }
 
 const knobPrelude = `def deep(n: Int, acc: Int): Int
